@@ -263,6 +263,8 @@ def run(ctx):
     shards = 16
     tasks = [{"seed": ctx.seed, "shard": i, "count": 12 if quick else 600} for i in range(shards)]
     ctx.map("checks.c16", "consensus_task", tasks, timeout=3000)
+    ctx.map("checks.c16", "consensus_task", [dict(t, shard=100 + t["shard"], count=max(6, t["count"] // 4)) for t in tasks[:4]],
+            timeout=3000, python_flags=("-O",))  # assertions off
     if ctx.counters.get("command_outputs", 0) < 200 or ctx.counters.get("cases_nothing_retained", 0) < 3:
         ctx.inconc("too few consensus outputs / no empty consensus observed")
     if ctx.counters.get("cases_with_two_or_more_empty_own_sets", 0) < 3:
